@@ -524,6 +524,27 @@ def run_history(h):
                 fails.append({'key': 'incoherent:' + ','.join(d),
                               'detail': '%s: edited model %s, fresh model %s' % (where, [a[k] for k in d],
                                                                                  [b[k] for k in d])})
+        # ---- oracle 3: the equation list and the definition maps are views of one set of definitions
+        owner = {}
+        for e in m.equations:
+            dv = e.lhs.args[0] if e.lhs.is_Derivative else e.lhs
+            if dv in owner:
+                fails.append({'key': 'incoherent:two-definitions',
+                              'detail': '%s: Model.equations holds two equations that define %s: %s and %s'
+                                        % (where, dv, owner[dv], e)})
+                break
+            owner[dv] = e
+        else:
+            for dv, e in owner.items():
+                try:
+                    d = m.get_definition(dv)
+                except Exception:
+                    d = None
+                if d is None or d != e:
+                    fails.append({'key': 'incoherent:definition-not-in-equations',
+                                  'detail': '%s: get_definition(%s) = %s but Model.equations defines it by %s'
+                                            % (where, dv, d, e)})
+                    break
         prev = snap
         steps.append(rec)
         if fails:
